@@ -8,8 +8,20 @@
  * Shape bound: at most NREG entries in the pre-state, names of at most 1 char.
  */
 #include "verif.h"
-#define VERIF_RG_DEFAULT_HOOKS
 #include "verif_rg.h"
+/* Guarantee hooks (no interference is injected: the contracts are call-atomic).  While a slot is "watched",
+ * every change of its value must be the effect of my own atomic compare-and-swap on that very slot: the slot
+ * is compared with its expected value at every atomic operation / fence of the function, so a plain store
+ * (legal only under the write lock) is detected at the next lock operation. */
+static void *volatile *g_watch; static void *g_watch_expected; static int g_watch_on, g_plain_write;
+static void watch_check(void) { if (g_watch_on && *g_watch != g_watch_expected) g_plain_write = 1; }
+void verif_env_step(int op, volatile void *loc) { (void)op; (void)loc; watch_check(); }
+void verif_own_step(int op, volatile void *loc, int success)
+{
+    (void)success;
+    if (g_watch_on && op == V_OP_CAS && loc == (volatile void *)g_watch) g_watch_expected = *g_watch;
+    else watch_check();
+}
 #include "parsec/class/parsec_object.c"
 #include "parsec/class/parsec_list.c"
 #include "parsec/class/parsec_rwlock.c"
@@ -224,7 +236,11 @@ void h_set(void)
     /* get returns the last value set */
     V_ASSERT(parsec_info_get(&oa, vin.set_iid) == (void *)(uintptr_t)vin.newval, "C41.get.post.returns_last_value_set");
     /* test-and-set replaces only on match */
+    g_watch = (void *volatile *)&oa.info_objects[vin.set_iid]; g_watch_expected = *g_watch; g_plain_write = 0; g_watch_on = 1;
     void *t = parsec_info_test_and_set(&oa, vin.set_iid, (void *)(uintptr_t)vin.oldval, (void *)(uintptr_t)vin.slot[0]);
+    g_watch_on = 0;
+    V_ASSERT(!g_plain_write && oa.info_objects[vin.set_iid] == g_watch_expected,
+             "C41.test_and_set.guar.slot_changed_only_by_its_atomic_compare_and_swap");
     if (vin.slot[0] == vin.newval)
         V_ASSERT(t == (void *)(uintptr_t)vin.oldval && oa.info_objects[vin.set_iid] == (void *)(uintptr_t)vin.oldval,
                  "C41.test_and_set.post.replaces_on_match");
